@@ -701,6 +701,171 @@ Section Apply.
         * exists []. now rewrite app_nil_r.
         * lia.
   Qed.
+
+  (* ------------------------------------------------------------------ *)
+  (* Size-limited variant                                                *)
+  Local Notation ensure_l := (Apply.ensure_l op).
+  Local Notation process_l := (Apply.process_l A B fa fb fo op).
+  Local Notation apply2_limit := (Apply.apply2_limit A B fa fb fo op).
+
+  Lemma mk_mono s d x y p s' : mk s d x y = (p, s') ->
+    size (nodes s) <= size (nodes s') /\ nonempty s' = nonempty s.
+  Proof.
+    unfold mk. destruct (x =? y); [intros E; inversion E; subst; split; [lia|reflexivity]|].
+    destruct (nfind _ _); intros E; inversion E; subst; [split; [lia|reflexivity]|].
+    cbn [nodes nonempty]. rewrite size_app. change (size [mkNode d x y]) with 1. split; [lia|reflexivity].
+  Qed.
+
+  Lemma process_mono : forall fuel t s p s', process fuel t s = Some (p, s') -> size (nodes s) <= size (nodes s').
+  Proof.
+    induction fuel as [|f IH]; intros t s p s' E; [discriminate|].
+    cbn [Apply.process] in E.
+    assert (Hens : forall t0 s0 q s1, ensure_with (process f) t0 s0 = Some (q, s1) -> size (nodes s0) <= size (nodes s1)).
+    { intros t0 s0 q s1 E0. unfold Apply.ensure_with in E0.
+      destruct (op _ _); [inversion E0; subst; lia|].
+      destruct (tfind _ _); [inversion E0; subst; lia|]. eapply IH; eassumption. }
+    destruct (oeq fo (level t)).
+    - destruct (ensure_with (process f) (t_lo t) s) as [[p1 s1]|] eqn:E1; [|discriminate].
+      destruct (ensure_with (process f) (t_hi t) s1) as [[p2 s2]|] eqn:E2; [|discriminate].
+      destruct (mk _ _ _ _) as [q s4] eqn:Em. inversion E; subst.
+      apply mk_mono in Em. cbn [nodes set_ne memo] in *. apply Hens in E1. apply Hens in E2. lia.
+    - destruct (ensure_with (process f) (t_hi t) s) as [[p1 s1]|] eqn:E1; [|discriminate].
+      destruct (ensure_with (process f) (t_lo t) s1) as [[p2 s2]|] eqn:E2; [|discriminate].
+      destruct (mk _ _ _ _) as [q s4] eqn:Em. inversion E; subst.
+      apply mk_mono in Em. cbn [nodes set_ne memo] in *. apply Hens in E1. apply Hens in E2. lia.
+  Qed.
+
+  Definition lspec (limit : N) (s : st) (p : N) (s' : st) : Apply.lres :=
+    if (size (nodes s) <? size (nodes s')) && (limit <? size (nodes s')) then Apply.LAbort else Apply.LOk p s'.
+
+  Lemma lspec_abort limit s q s' : size (nodes s) < size (nodes s') -> limit < size (nodes s') -> lspec limit s q s' = Apply.LAbort.
+  Proof. intros a b. unfold lspec. apply N.ltb_lt in a, b. rewrite a, b. reflexivity. Qed.
+  Lemma lspec_ok limit s q s' : (size (nodes s') <= size (nodes s) \/ size (nodes s') <= limit) -> lspec limit s q s' = Apply.LOk q s'.
+  Proof. intros [a|a]; unfold lspec; apply N.ltb_ge in a; rewrite a; [reflexivity|rewrite andb_false_r; reflexivity]. Qed.
+  Lemma lspec_cases limit s q s' :
+    (lspec limit s q s' = Apply.LAbort /\ size (nodes s) < size (nodes s') /\ limit < size (nodes s')) \/
+    (lspec limit s q s' = Apply.LOk q s' /\ (size (nodes s') <= size (nodes s) \/ size (nodes s') <= limit)).
+  Proof.
+    unfold lspec. destruct (N.ltb_spec (size (nodes s)) (size (nodes s'))); destruct (N.ltb_spec limit (size (nodes s'))); cbn [andb];
+      [left|right|right|right]; repeat split; auto.
+  Qed.
+
+  (* purely structural: the limited run aborts exactly when the unlimited one grows the store beyond the limit *)
+  Lemma process_l_spec limit : forall fuel t s p s', process fuel t s = Some (p, s') ->
+    process_l limit fuel t s = lspec limit s p s'.
+  Proof.
+    induction fuel as [|f IH]; intros t s p s' E; [discriminate|].
+    cbn [Apply.process] in E. cbn [Apply.process_l].
+    assert (Hens : forall t0 s0 q s1, ensure_with (process f) t0 s0 = Some (q, s1) ->
+              ensure_l (process_l limit f) t0 s0 = lspec limit s0 q s1 /\ size (nodes s0) <= size (nodes s1)).
+    { intros t0 s0 q s1 E0. unfold Apply.ensure_with in E0. unfold Apply.ensure_l.
+      destruct (op _ _).
+      - inversion E0; subst. split; [symmetry; apply lspec_ok; left; lia|lia].
+      - destruct (tfind _ _).
+        + inversion E0; subst. split; [symmetry; apply lspec_ok; left; lia|lia].
+        + split; [apply IH; assumption|eapply process_mono; eassumption]. }
+    assert (Hcore : forall ta tb p1 s1 p2 s2 bflag d x y q s4,
+              ensure_with (process f) ta s = Some (p1, s1) ->
+              ensure_with (process f) tb s1 = Some (p2, s2) ->
+              mk (set_ne s2 bflag) d x y = (q, s4) ->
+              match ensure_l (process_l limit f) ta s with
+              | Apply.LAbort => Apply.LAbort | Apply.LFuel => Apply.LFuel
+              | Apply.LOk p1' s1' =>
+                match ensure_l (process_l limit f) tb s1' with
+                | Apply.LAbort => Apply.LAbort | Apply.LFuel => Apply.LFuel
+                | Apply.LOk p2' s2' =>
+                  if (size (nodes (set_ne s2 bflag)) <? size (nodes s4)) && (limit <? size (nodes s4)) then Apply.LAbort
+                  else Apply.LOk q (memo s4 t q)
+                end
+              end = lspec limit s q (memo s4 t q)).
+    { intros ta tb p1 s1 p2 s2 bflag d x y q s4 E1 E2 Em.
+      destruct (Hens _ _ _ _ E1) as (L1 & M1). destruct (Hens _ _ _ _ E2) as (L2 & M2).
+      pose proof (mk_mono _ _ _ _ _ _ Em) as (M4 & _). cbn [nodes set_ne] in M4.
+      rewrite L1.
+      destruct (lspec_cases limit s p1 s1) as [(-> & a & b)|(-> & c1)].
+      { symmetry. apply lspec_abort; cbn [nodes memo]; lia. }
+      rewrite L2.
+      destruct (lspec_cases limit s1 p2 s2) as [(-> & a & b)|(-> & c2)].
+      { symmetry. apply lspec_abort; cbn [nodes memo]; lia. }
+      cbn [nodes set_ne].
+      destruct (N.ltb_spec (size (nodes s2)) (size (nodes s4))) as [a|a]; destruct (N.ltb_spec limit (size (nodes s4))) as [b|b]; cbn [andb].
+      - symmetry. apply lspec_abort; cbn [nodes memo]; lia.
+      - symmetry. apply lspec_ok; cbn [nodes memo]. right; lia.
+      - symmetry. apply lspec_ok; cbn [nodes memo]. destruct c1, c2; lia.
+      - symmetry. apply lspec_ok; cbn [nodes memo]. right; lia. }
+    destruct (oeq fo (level t)).
+    - destruct (ensure_with (process f) (t_lo t) s) as [[p1 s1]|] eqn:E1; [|discriminate].
+      destruct (ensure_with (process f) (t_hi t) s1) as [[p2 s2]|] eqn:E2; [|discriminate].
+      destruct (mk _ _ _ _) as [q s4] eqn:Em. inversion E; subst p s'. clear E.
+      pose proof (Hcore _ _ _ _ _ _ _ _ _ _ _ _ E1 E2 Em) as H.
+      destruct (Hens _ _ _ _ E1) as (L1 & _). rewrite L1 in H |- *.
+      destruct (lspec limit s p1 s1) as [| |p1' s1'] eqn:X1; try exact H.
+      assert (p1' = p1 /\ s1' = s1) as (-> & ->).
+      { unfold lspec in X1. destruct (_ && _); inversion X1; auto. }
+      destruct (Hens _ _ _ _ E2) as (L2 & _). rewrite L2 in H |- *.
+      destruct (lspec limit s1 p2 s2) as [| |p2' s2'] eqn:X2; try exact H.
+      assert (p2' = p2 /\ s2' = s2) as (-> & ->).
+      { unfold lspec in X2. destruct (_ && _); inversion X2; auto. }
+      rewrite Em. exact H.
+    - destruct (ensure_with (process f) (t_hi t) s) as [[p1 s1]|] eqn:E1; [|discriminate].
+      destruct (ensure_with (process f) (t_lo t) s1) as [[p2 s2]|] eqn:E2; [|discriminate].
+      destruct (mk _ _ _ _) as [q s4] eqn:Em. inversion E; subst p s'. clear E.
+      pose proof (Hcore _ _ _ _ _ _ _ _ _ _ _ _ E1 E2 Em) as H.
+      destruct (Hens _ _ _ _ E1) as (L1 & _). rewrite L1 in H |- *.
+      destruct (lspec limit s p1 s1) as [| |p1' s1'] eqn:X1; try exact H.
+      assert (p1' = p1 /\ s1' = s1) as (-> & ->).
+      { unfold lspec in X1. destruct (_ && _); inversion X1; auto. }
+      destruct (Hens _ _ _ _ E2) as (L2 & _). rewrite L2 in H |- *.
+      destruct (lspec limit s1 p2 s2) as [| |p2' s2'] eqn:X2; try exact H.
+      assert (p2' = p2 /\ s2' = s2) as (-> & ->).
+      { unfold lspec in X2. destruct (_ && _); inversion X2; auto. }
+      rewrite Em. exact H.
+  Qed.
+
+  Lemma root_run : exists p s', process (S (S (N.to_nat nv))) root s0 = Some (p, s') /\
+      (nonempty s' = false -> size (nodes s') = 2).
+  Proof.
+    pose proof root_valid as Vr. pose proof Inv_s0 as HI0. pose proof (level_le root Vr) as Hle.
+    destruct (N.eq_dec (level root) nv) as [Eq|Ne].
+    - destruct (level_nv_terminal root Vr Eq) as (T1 & T2). destruct Vr as (V1 & V2).
+      destruct (as_bool_term _ T1) as (a & Ea), (as_bool_term _ T2) as (b & Eb).
+      assert (Hk : t_lo root = root /\ t_hi root = root).
+      { unfold Apply.t_lo, Apply.t_hi, kids. rewrite Eq.
+        rewrite (term_get A _ WA V1 T1), (term_get B _ WB V2 T2). cbn [nvar nlow nhigh].
+        fold nv. rewrite <- NV. fold nv. rewrite N.eqb_refl. cbn [negb].
+        rewrite (oeq_nv fa FA), (oeq_nv fb FB). cbn [fst snd]. destruct root; auto. }
+      destruct Hk as (Klo & Khi).
+      cbn [Apply.process]. rewrite Klo, Khi.
+      assert (Hens : forall s, ensure_with (process (S (N.to_nat nv))) root s = Some (of_bool (bop a b), s)).
+      { intros s. unfold Apply.ensure_with. rewrite Ea, Eb, OP_total. reflexivity. }
+      destruct (oeq fo (level root)); rewrite !Hens; unfold mk; rewrite N.eqb_refl;
+        eexists; eexists; (split; [reflexivity|]); intros _; reflexivity.
+    - assert (Hlt : level root < nv) by lia.
+      destruct (process_ok (S (S (N.to_nat nv))) root s0 HI0 Vr Hlt ltac:(lia)) as (p & s' & E & _).
+      pose proof (process_facts (S (S (N.to_nat nv))) root s0 p s' HI0 Vr Hlt ltac:(lia) E) as (_ & _ & _ & F4).
+      exists p, s'. split; [exact E|]. intros Hne.
+      destruct (F4 ltac:(intros _; reflexivity)) as (J' & _). apply J'. exact Hne.
+  Qed.
+
+  Theorem apply2_limit_spec limit : exists r, apply2 = Some r /\
+      apply2_limit limit = Some (if limit =? 0 then None else if size r <=? limit then Some r else None).
+  Proof.
+    destruct root_run as (p & s' & E & Hne).
+    unfold Apply.apply2, Apply.apply2_limit. fold nv. rewrite E.
+    eexists; split; [reflexivity|].
+    destruct (N.eqb_spec limit 0) as [L0|L0]; [reflexivity|].
+    rewrite (process_l_spec limit _ _ _ _ _ E).
+    destruct (lspec_cases limit s0 p s') as [(-> & a & b)|(-> & c)].
+    - (* aborted: the store grew beyond the limit, so the result is not the empty diagram *)
+      destruct (nonempty s') eqn:En.
+      + apply N.leb_gt in b. rewrite b. reflexivity.
+      + specialize (Hne eq_refl). cbn [nodes Apply.s0] in a. change (size [zero; one]) with 2 in a. lia.
+    - destruct (nonempty s') eqn:En.
+      + destruct (N.ltb_spec limit (size (nodes s'))) as [d|d].
+        * apply N.leb_gt in d. rewrite d. reflexivity.
+        * apply N.leb_le in d. rewrite d. reflexivity.
+      + change (size [zero]) with 1. destruct (N.leb_spec 1 limit); [reflexivity|lia].
+  Qed.
 End Apply.
 Check apply2_sem.
 Print Assumptions apply2_sem.
